@@ -134,6 +134,29 @@ def ob_deep(ctx, api, depths):
     return _reader_outcome(ctx, data) if api == 'reader' else _dom_outcome(ctx, data)
 
 
+def ob_huge_digits(ctx, api, sizes):
+    """resource-shaped inputs: an option value made of D decimal digits (CPython >= 3.11 refuses int() of more than
+    sys.get_int_max_str_digits() = 4300 digits with a ValueError), one digit symbolic; as a declared length with
+    leading zeros (a *valid* file), as an unknown option on a container and on a content header"""
+    D = ctx.pick('digits', sizes)
+    where = ctx.pick('where', ['length-with-leading-zeros', 'unknown-on-container', 'unknown-on-content', 'indent'])
+    x = sym_bytes(ctx, 'x', 1)
+    ctx.assume(z3.And(z3.UGE(x.el[0], 48), z3.ULE(x.el[0], 57)))
+    if where == 'length-with-leading-zeros':
+        digits = tuple(b'0' * (D - 1)) + (51,)
+        data = mk_seq(tuple(MAIN + b'#.meta: length=') + digits[:-2] + tuple(x.el) + digits[-1:] + tuple(b'\n{}\n#.change:\n#..file:\n#...meta: length=3\n{}\n'), bytes)
+    elif where == 'unknown-on-container':
+        digits = tuple(b'7' * (D - 1))
+        data = mk_seq(tuple(MAIN + b'#.change: rev=') + digits + tuple(x.el) + tuple(b'\n#..file:\n#...meta: length=3\n{}\n'), bytes)
+    elif where == 'unknown-on-content':
+        digits = tuple(b'7' * (D - 1))
+        data = mk_seq(tuple(MAIN + b'#.change:\n#..file:\n#...meta: length=3, rev=') + tuple(x.el) + digits + tuple(b'\n{}\n'), bytes)
+    else:
+        digits = tuple(b'1' * (D - 1))
+        data = mk_seq(tuple(MAIN + b'#.preamble: indent=') + digits + tuple(x.el) + tuple(b', length=2\nx\n#.change:\n#..file:\n#...meta: length=3\n{}\n'), bytes)
+    return _reader_outcome(ctx, data) if api == 'reader' else _dom_outcome(ctx, data)
+
+
 def ob_dom_attrs(ctx, N):
     """container headers whose option *names* are attribute names of the object-model classes"""
     from pydiffx import DiffX
@@ -264,6 +287,15 @@ def obligations(tier):
                       must_reach=['DiffXReader.iter_sections'],
                       desc='metadata nested %s levels deep (arrays / objects) with one symbolic byte innermost: the contract '
                            'holds whatever the JSON decoder does at that depth' % depths, bounds={'depths': depths}))
+    import sys
+    lim = sys.get_int_max_str_digits() if hasattr(sys, 'get_int_max_str_digits') else 4300
+    sizes = [lim, lim + 1] if quick else [lim - 1, lim, lim + 1, lim + 700, 3 * lim]
+    for api in ('reader', 'dom'):
+        obs.append(Ob('huge-digits[%s]' % api, ob_huge_digits, dict(api=api, sizes=sizes), path_timeout=60,
+                      must_reach=['DiffXReader.iter_sections'],
+                      desc='option values of %s decimal digits (around the interpreter\'s int-conversion limit) as a declared '
+                           'length with leading zeros, as an unknown option on container / content headers and as indent, one '
+                           'digit symbolic' % sizes, bounds={'digits': sizes}))
     obs.append(Ob('dom[attribute-named-options]', ob_dom_attrs, dict(N=1 if quick else 2),
                   must_reach=['DiffXDOMReader.parse'], path_timeout=8,
                   desc='DiffX.from_stream on files whose container headers carry an option named like any attribute '
